@@ -49,30 +49,11 @@ Proof.
   intros H. replace n with (lenN a); [apply take_drop_app|]. unfold lenN. rewrite H. apply N2Nat.id.
 Qed.
 
-Section Crypto.
+Section Mask.
   Variable ks : bytes -> bytes -> nat -> N.
-  Variable seal : bytes -> bytes -> bytes -> bytes -> bytes.
-  Variable open : bytes -> bytes -> bytes -> bytes -> option bytes.
-  Variable Hsha : bytes -> bytes.
-  Variable pub_of : bytes -> bytes.
-  Variable sign : bytes -> bytes -> bytes.
-  Variable sig_verify : bytes -> bytes -> bytes -> bool.
-  Variable pub_valid : bytes -> bool.
-  Variable ecdh : bytes -> bytes -> bytes.
-  Variable kdf : bytes -> bytes -> bytes -> bytes * bytes.
-  Variable rec_seq : bytes -> option N.
-  Variable rec_node : bytes -> option node.
-  Variable msg_ok : bytes -> bool.
-
   Notation xor_from := (xor_from ks).
   Notation encode_raw := (encode_raw ks).
   Notation parse_packet := (parse_packet ks).
-  Notation decode := (decode ks open Hsha sig_verify pub_valid ecdh kdf rec_seq rec_node msg_ok).
-  Notation decode_message := (decode_message open msg_ok).
-  Notation decode_handshake := (decode_handshake open Hsha sig_verify pub_valid ecdh kdf rec_seq rec_node msg_ok).
-  Notation encode_message := (encode_message ks seal).
-  Notation encode_handshake := (encode_handshake ks seal Hsha pub_of sign ecdh kdf).
-  Notation encode_whoareyou := (encode_whoareyou ks).
 
   (* ---------- masking ---------- *)
 
@@ -160,6 +141,33 @@ Section Crypto.
       rewrite !app_length, Hiv, L1, L2. reflexivity. }
     rewrite S2. reflexivity.
   Qed.
+
+End Mask.
+
+Section Crypto.
+  Variable ks : bytes -> bytes -> nat -> N.
+  Variable seal : bytes -> bytes -> bytes -> bytes -> bytes.
+  Variable open : bytes -> bytes -> bytes -> bytes -> option bytes.
+  Variable Hsha : bytes -> bytes.
+  Variable pub_of : bytes -> bytes.
+  Variable sign : bytes -> bytes -> bytes.
+  Variable sig_verify : bytes -> bytes -> bytes -> bool.
+  Variable pub_valid : bytes -> bool.
+  Variable ecdh : bytes -> bytes -> bytes.
+  Variable kdf : bytes -> bytes -> bytes -> bytes * bytes.
+  Variable rec_seq : bytes -> option N.
+  Variable rec_node : bytes -> option node.
+  Variable msg_ok : bytes -> bool.
+
+  Notation xor_from := (xor_from ks).
+  Notation encode_raw := (encode_raw ks).
+  Notation parse_packet := (parse_packet ks).
+  Notation decode := (decode ks open Hsha sig_verify pub_valid ecdh kdf rec_seq rec_node msg_ok).
+  Notation decode_message := (decode_message open msg_ok).
+  Notation decode_handshake := (decode_handshake open Hsha sig_verify pub_valid ecdh kdf rec_seq rec_node msg_ok).
+  Notation encode_message := (encode_message ks seal).
+  Notation encode_handshake := (encode_handshake ks seal Hsha pub_of sign ecdh kdf).
+  Notation encode_whoareyou := (encode_whoareyou ks).
 
   (* ---------- WHOAREYOU ---------- *)
 
